@@ -14,7 +14,8 @@ RULE = (
     "Hypothesis draws store contents (0-3 staged trees over a small shared content pool + loose "
     "files, transferred into a LocalHashFileDB or HashFileDB), a used set (present ids by index, "
     "absent ids, ids carried by a foreign algorithm name), mode shallow/expanding (optionally "
-    "with a separate cache_odb that holds the directory objects), dry/real, read_only. Oracle: "
+    "with a separate cache_odb that holds the directory objects), dry/real, read_only, and in 1 of "
+    "15 cases 999-2300 further unused objects (paged listing/removal). Oracle: "
     "set difference computed from a direct os.walk of the store and the raw .dir bytes. "
     "Non-trivial = >=1 directory object, >=1 unused object, non-empty used set and one of "
     "{expanding, absent id, foreign-algorithm id}; distinct = SHA-1 of the canonical case JSON."
@@ -61,6 +62,9 @@ def cases(draw):
         "two_handles": draw(st.booleans()),
         # `used` is typed Iterable[HashInfo]: callers pass lists, sets and one-shot generators
         "used_form": draw(st.sampled_from(["list", "set", "generator", "chain"])),
+        # many further unused file objects written straight into the store: listing / removal in pages
+        # (fs.LIST_OBJECT_PAGE_SIZE = 1000) and batches must behave like the small case
+        "bulk": draw(st.sampled_from([0] * 56 + [999, 1000, 1001, 2300])),
         # name carried by the foreign-algorithm used ids
         "foreign": draw(st.sampled_from(["sha256", "md5-family", "md5-family"])),
     }
@@ -106,6 +110,17 @@ def run_case(case, ctx):
             p = os.path.join(d, f"loose{i}")
             gen.write_file(p, gen.content_bytes(c))
             ops.stage_transfer(odb2, p)
+
+        if case.get("bulk"):
+            import hashlib
+
+            for j in range(case["bulk"]):
+                data = b"bulk object %d" % j
+                oid = hashlib.md5(data).hexdigest()  # noqa: S324 (no CRLF: same id for md5-dos2unix)
+                p = odb.oid_to_path(oid)
+                gen.write_file(p, data)
+                os.chmod(p, 0o444)
+            odb._dirs = odb2._dirs = None
 
         # a used directory that lives only in cache_odb while its files live in the store
         if case["drop_dir"] and cache is not None and dir_ids:
@@ -205,7 +220,7 @@ def run_case(case, ctx):
             else:
                 left = sorted(set(after) & expected_removed)
                 if left:
-                    viols.append(Viol("kept-unused", f"gc left unused object(s) {left}"))
+                    viols.append(Viol("kept-unused", f"gc left {len(left)} unused object(s) {left[:4]}"))
                 for oid in set(after) & set(before):
                     if after[oid] != before[oid]:
                         viols.append(Viol("altered", f"object {oid} changed bytes"))
@@ -235,6 +250,8 @@ def run_case(case, ctx):
             classes.append("per-prefix-traversal(>=16 '00' ids)")
         if n_unpacked:
             classes.append("legacy-unpacked-leftover")
+        if case.get("bulk"):
+            classes.append("bulk>=999-unused-objects")
         if case.get("two_handles") and case["trees"]:
             classes.append("objects-added-through-second-handle")
         if cache is not None:
